@@ -68,7 +68,7 @@ func (j *jsonSubProto) Pack(m erpc.Message) error {
 		m.ServiceMethod(),
 		m.Meta().QueryString(),
 		m.BodyCodec(),
-		bytes.Replace(bodyBytes, []byte{'"'}, []byte{'\\', '"'}, -1),
+		escapeBody(bodyBytes),
 		xferPipeIDsBytes,
 	)
 
@@ -118,4 +118,11 @@ func (j *jsonSubProto) Unpack(m erpc.Message) error {
 	// unmarshal new body
 	err = m.UnmarshalBody(bodyBytes)
 	return err
+}
+
+// escapeBody escapes the body for embedding it in a JSON string:
+// the backslash first, then the double quote (Unpack reads it back with gjson's String()).
+func escapeBody(bodyBytes []byte) []byte {
+	bodyBytes = bytes.Replace(bodyBytes, []byte{'\\'}, []byte{'\\', '\\'}, -1)
+	return bytes.Replace(bodyBytes, []byte{'"'}, []byte{'\\', '"'}, -1)
 }
